@@ -240,6 +240,14 @@ def run(F, chk):
     assigned = set()
     cloned_from = set()
     other_id = copyfrom["params"][0]["id"] if copyfrom.get("params") else None
+    # locals that stand for (part of) the source: `const auto& srcBlocks = other.blocks;`
+    from_other = {other_id}
+    for _ in range(4):
+        for d in walk(copyfrom["body"]):
+            if d["k"] == "Decl":
+                for v in d.get("vars", []):
+                    if is_node(v.get("init")) and any(x["k"] == "Ref" and x.get("id") in from_other for x in walk(v["init"])):
+                        from_other.add(v["id"])
     for n in walk(copyfrom["body"]):
         tgt = None
         if n["k"] == "Assign":
@@ -255,7 +263,7 @@ def run(F, chk):
             root = root["base"]
         if is_node(root) and root["k"] == "Member" and root.get("owner") == "nifly::NifFile" and \
                 (root.get("base") is None or root["base"]["k"] == "This"):
-            uses_other = any(x["k"] == "Ref" and x.get("id") == other_id for x in walk(src)) if is_node(src) else False
+            uses_other = any(x["k"] == "Ref" and x.get("id") in from_other for x in walk(src)) if is_node(src) else False
             if uses_other:
                 assigned.add(root["name"])
                 if any(x["k"] == "Call" and x.get("short") == "Clone" for x in walk(src)):
@@ -401,6 +409,63 @@ def run(F, chk):
                     chk.violation("R11.5", "C11/R11.5:%s->%s" % (fn["name"], n.get("short")), where(fn, n),
                                   "the shared factory register is mutated outside its constructor")
     chk.floor(R5, 100)
+
+    # ---------------- R11.6 the copy is not edited after it was cloned
+    R6 = chk.rule("R11.6", "apart from cloning, CopyFrom changes nothing inside the blocks of the copy except the re-linked caches: no "
+                           "function it reaches (other than the Clone machinery and the destruction of the old content) assigns a "
+                           "member of a block class or of a value type nested in one (a fix-up that re-reads strings from the header "
+                           "table, say, silently reverts what the source had not saved yet, so the copy no longer saves like the source)")
+    import c02 as _c02
+    clone_ids = {g["id"] for g in F.fns.values() if g.get("short") in ("Clone", "Clone_impl") or g.get("ctor") or g.get("dtor")}
+    clear_fn = [g["id"] for g in F.fns.values() if g["name"] in ("nifly::NifFile::Clear", "nifly::NiHeader::Clear")]
+    drop = set(clear_fn)
+    for cid in clear_fn:
+        drop |= F.reachable([cid])
+    reach6 = set()
+    work = [copyfrom["id"]]
+    while work:
+        cur = work.pop()
+        if cur in reach6 or cur in clone_ids or cur not in F.fns:
+            continue
+        reach6.add(cur)
+        for n, ts in F.calls_in(F.fns[cur]):
+            if cur == copyfrom["id"] and n.get("short") == "Clear" and (n.get("recv") is None or n["recv"]["k"] == "This"):
+                continue  # the old content is thrown away before anything is copied
+            work.extend(t for t in ts if t not in reach6)
+    allowed6 = {(c, f) for (c, f) in cache}
+    n6 = 0
+    for fid in sorted(reach6):
+        g = F.fns[fid]
+        if g.get("tmpl") == "pattern" or not (g.get("file") or "").startswith(("src/", "include/")):
+            continue
+        for n in walk(g.get("body") or {}):
+            tgt = None
+            if n["k"] == "Assign":
+                tgt = n["l"]
+            elif n["k"] == "Unary" and n["op"] in ("++", "--"):
+                tgt = n["e"]
+            elif n["k"] == "OpCall" and n.get("op") in ("=", "+=", "-=") and n.get("args"):
+                tgt = n["args"][0]
+            elif n["k"] == "Call" and n.get("ext") and is_node(n.get("recv")) and n.get("short") in (
+                    "resize", "clear", "push_back", "emplace_back", "erase", "insert", "assign", "swap", "pop_back"):
+                tgt = n["recv"]
+            if not is_node(tgt):
+                continue
+            mem = _c02._written_member(tgt)
+            if mem is None:
+                continue
+            owner, name = mem.get("owner") or "", mem["name"]
+            if not (F.derives_from(owner, "nifly::NiObject") or _c02._block_part(F, owner)):
+                continue
+            n6 += 1
+            ok = (owner, name) in allowed6
+            chk.instance(R6, ok=ok, sample={"fn": g["name"], "writes": "%s::%s" % (owner, name)}, nontrivial=not ok or n6 < 50)
+            if not ok:
+                chk.violation("R11.6", "C11/R11.6:%s:%s::%s" % (g["name"].split("(")[0], owner, name), where(g, n),
+                              "%s, which NifFile::CopyFrom reaches, changes %s::%s of a block: the copy is edited after it was cloned "
+                              "and no longer equals (saves like) its source" % (g["name"], owner, name))
+    chk.extra["copyfrom_reach"] = len(reach6)
+    chk.floor(R6, 3)
 
     chk.assumptions += [
         "std value containers (vector, string, array, set, map, deque, optional, pair) deep-copy their elements",
